@@ -1,3 +1,4 @@
+import Amqp.Gen.Locks
 import Amqp.Lemmas.Rpc
 import Amqp.Gen.Skel
 /-!
@@ -140,6 +141,12 @@ theorem reader_takes_no_lock :
     ∀ m ∈ ["Channel_on_frame", "Rpc_on_frame", "Channel__basic_cancel", "Channel__basic_return",
            "Channel__close_channel", "BaseChannel_remove_consumer_tag", "BaseChannel_add_consumer_tag"],
       Gen.Skel.acquires.lookup m = some [] := by decide
+
+/-- the same through every call the reader can make (lock graph regenerated from the source): the reader
+    thread takes only the socket locks, never one a waiting caller may hold -/
+theorem reader_never_needs_a_waiting_callers_lock :
+    Gen.Locks.readerAcquires.all (fun l => l == "IO._rd_lock" || l == "IO._wr_lock") = true ∧
+    Gen.Locks.readerAcquires.all (fun l => !Gen.Locks.heldWhileWaitingForReader.contains l) = true := by decide
 
 theorem skel_Channel_on_frame : Gen.Skel.Channel_on_frame =
   ["if", "then", "if", "call:_skip_returned_content", "then", "return", "endif", "endif", "if",
